@@ -36,7 +36,7 @@ TECHNIQUE = "Hypothesis-generated expression trees rendered to text vs. independ
 LEVEL_TEXT = ("generated-input search: random expression trees over the complete operator set with varied rendering, "
               "compared on a fixed pool of flows of every type against an independent evaluator; not exhaustive")
 LEVEL_NOTE = "trusts Python re, the spec->flow builder in lib/ref_filter.py and str(DNSMessage)"
-QUICK_N, THOROUGH_N = 24_000, 1_200_000
+QUICK_N, THOROUGH_N = 12_000, 600_000
 BUDGET_S = (150, 7200)
 
 # ------------------------------------------------------------------ regex grammar
@@ -187,28 +187,26 @@ def check_case(case, ctx):
     try:
         flt = flowfilter.parse(text)
     except ValueError:
-        # attribute: does the same tree parse when every operator code is followed by whitespace?
+        # attribute the rejection, then go on with a rendering that avoids the attributed cause so that the verdicts of
+        # this tree are still compared
+        flt = None
         safe_text = rf.render(tree, safe=True)[0]
-        try:
-            flowfilter.parse(safe_text)
-            safe_ok = True
-        except ValueError:
-            safe_ok = False
-        if glued and safe_ok:
+        flt_safe = _try_parse(flowfilter, safe_text)
+        if glued and flt_safe is not None:
             import re
             m = re.search(r"~[a-z]+([)(|&])", text)
             ctx.fail("rejected:no-space-after-code:" + m.group(1), "%r rejected, %r accepted" % (text, safe_text))
-            return
-        if not safe_ok and rf.j_in_parens(tree):
+            flt, text = flt_safe, safe_text
+        elif flt_safe is None and rf.j_in_parens(tree):
             and_text = rf.render(rf.j_to_and(tree), safe=True)[0]
-            try:
-                flowfilter.parse(and_text)
+            flt_and = _try_parse(flowfilter, and_text)
+            if flt_and is not None:
                 ctx.fail("rejected:juxtaposition-inside-parentheses", "%r rejected, %r accepted" % (text, and_text))
-                return
-            except ValueError:
-                pass
-        ctx.fail("rejected:other", "%r rejected (safe rendering %r %s)" % (text, safe_text, "accepted" if safe_ok else "rejected too"))
-        return
+                flt, text, jor = flt_and, and_text, False
+        if flt is None:
+            ctx.fail("rejected:other", "%r rejected (safe rendering %r %s)" % (
+                text, safe_text, "accepted" if flt_safe is not None else "rejected too"))
+            return
     except Exception as e:
         ctx.crash(e)
         return
@@ -241,6 +239,13 @@ def check_case(case, ctx):
         else:
             b = "verdict:tree"
         ctx.fail(b, "%r on flow %s: got %r, reference %r" % (text, _short(s), got, want))
+
+
+def _try_parse(flowfilter, text):
+    try:
+        return flowfilter.parse(text)
+    except ValueError:
+        return None
 
 
 def _short(s):
